@@ -64,6 +64,7 @@ func TestVerifC12(t *testing.T) {
 		t.Logf("C12 enumeration sizes (%s): %v", verifmc.Tier(), cnt)
 		return
 	}
+	rp.Add("pristine_deviations", 0) // counted by runPristine; not violations
 	total, mine := 0, 0
 	stopFile, stopWritten := "", false
 	if d := os.Getenv("VERIF_OUT"); d != "" {
@@ -104,6 +105,9 @@ func TestVerifC12(t *testing.T) {
 	}
 	if stoppedOnViolations {
 		rp.NotExhaustive("stopped early: violations found (3 in this shard, or at least one in another shard)")
+	}
+	if len(r.deviations) > 0 {
+		rp.Note(fmt.Sprintf("pristine_deviation_samples_shard%d", verifmc.EnvInt("VERIF_SHARD", 0)), r.deviations)
 	}
 	for k, v := range perFamily {
 		rp.Add("cases_"+k, v)
